@@ -40,8 +40,8 @@ func init() {
 		externs: []string{"io.ReaderAt.ReadAt:out0", "io.NewSectionReader", "xxhash.Sum64"}, recvArg: true})
 	registerGoLite(glGroup{id: "goliterdmain", out: "GoLiteRdMain.v", pkgDir: ".", funcs: []glFunc{{name: "readFullAt"}}, externs: rdExt})
 	registerGoLite(glGroup{id: "golitec03", out: "GoLiteC03.v", pkgDir: ".",
-		funcs:   []glFunc{{name: "parseNodeFromSection"}},
-		externs: []string{"binary.Uvarint", "bytes.NewReader", "cid.CidFromReader", "*.Equals"},
+		funcs:   []glFunc{{name: "parseNodeFromSection"}, {name: "readFullAt"}, {name: "readNodeFromReaderAtWithOffsetAndSize"}, {name: "readSectionFromReaderAt"}},
+		externs: []string{"binary.Uvarint", "bytes.NewReader", "cid.CidFromReader", "*.Equals", "io.ReaderAt.ReadAt:out0"},
 		consts:  map[string]string{"util.MaxAllowedSectionSize": "33554432"}})
 
 	registerGoLite(glGroup{id: "golitec01", out: "GoLiteC01.v", pkgDir: "indexes",
